@@ -56,7 +56,7 @@ class C18:
         return []
 
     def _queries(self, rng):
-        allv = [list(v) for v in VERS]
+        allv = [list(v) for v in VERS + [(0, 3), (99, 0), (99, 1)]]
         sub = [list(v) for v in VERS if rng.random() < 0.5]
         return [
             {"os": "linux", "arch": "amd64", "allowed": allv, "meta_min": 0},
@@ -77,8 +77,13 @@ class C18:
             for vs in itertools.product(VERS, repeat=n):
                 arts = [{"ver": list(v), "os": "linux", "arch": "amd64", "meta": 0} for v in vs]
                 cases.append({"kind": "resolve", "arts": arts, "queries": self._queries(rng)})
+        # versions that compare to nothing, themselves included (first component 99 in the third inventory)
+        for n in range(1, 4):
+            for vs in itertools.product([(1, 1), (2, 2), (99, 0), (99, 1)], repeat=n):
+                arts = [{"ver": list(v), "os": "linux", "arch": "amd64", "meta": 0} for v in vs]
+                cases.append({"kind": "resolve", "arts": arts, "queries": self._queries(rng)})
         for _ in range(6000 if tier == "thorough" else 800):
-            arts = [{"ver": list(rng.choice(VERS + [(3, 0), (0, 3)])), "os": rng.choice(["linux", "linux", "darwin"]),
+            arts = [{"ver": list(rng.choice(VERS + [(3, 0), (0, 3), (99, 0), (99, 1)])), "os": rng.choice(["linux", "linux", "darwin"]),
                      "arch": rng.choice(["amd64", "amd64", "arm64"]), "meta": rng.choice([0, 1])}
                     for _ in range(rng.randint(1, 6))]
             cases.append({"kind": "resolve", "arts": arts, "queries": self._queries(rng)})
@@ -140,9 +145,9 @@ class C18:
             qs = []
             for q, r in zip(c["queries"], o["results"]):
                 req = "(mkReq %s %d)" % (cq_list([cq_ver(v) for v in q["allowed"]]), q["meta_min"])
-                qs.append("(mkQ %s %s %s %s %s)" % ("Linux" if q["os"] == "linux" else "Darwin",
+                qs.append("(mkQ %s %s %s %s %s %s)" % ("Linux" if q["os"] == "linux" else "Darwin",
                                                    "Arm64" if q["arch"] == "arm64" else "Amd64", req,
-                                                   cq_onat(r["partial"]), cq_onat(r["total"])))
+                                                   cq_onat(r["partial"]), cq_onat(r["total"]), cq_onat(r["pnan"])))
             return f"(CResolve {cq_list([cq_art(a) for a in c['arts']])} {cq_list(qs)})"
         if c["kind"] == "checksum":
             if o["ok"]:
